@@ -1082,6 +1082,10 @@ private:
 """, new=""),
     dict(property="C19", name="enum-map-duplicate-name", rule="R-C19-7", file="include/nano/wlearner/criterion.h", tu="src/wlearner/stump.cpp",
          old="""        { wlearner_criterion::bic,  "bic"}""", new="""        { wlearner_criterion::bic,  "aic"}"""),
+    dict(property="C15", name="hash-double-as-32-bits", rule="R-C15-6", file="include/nano/core/hash.h", tu="src/feature.cpp",
+         old="                hash = hash_combine(hash, reinterpret_cast<const uint64_t&>(data[i]));", new="                hash = hash_combine(hash, reinterpret_cast<const uint32_t&>(data[i]));"),
+    dict(property="C15", name="hash-skips-last-element", rule="R-C15-6", file="include/nano/core/hash.h", tu="src/feature.cpp",
+         old="    for (tsize i = 0; i < size; ++i)\n    {\n        if constexpr (std::is_floating_point_v<tscalar>)", new="    for (tsize i = 0; i + 1 < size; ++i)\n    {\n        if constexpr (std::is_floating_point_v<tscalar>)"),
     # ---- C09
     dict(property="C09", name="linear-accumulator-sum-drops-gW1", rule="R-C09-2", file="src/linear/accumulator.cpp",
          old="    m_gW1 += other.m_gW1;\n", new=""),
